@@ -72,7 +72,8 @@ def default_execute(scn, ctx, timeout=10.0, digests=False):
     for run in scn["runs"]:
         argv = [subst(a, w) for a in run["argv"]]
         kw = dict(tz=env.get("tz", "UTC"), fake_epoch=(env.get("fake_epoch") if (env.get("fake_epoch") or -1) >= 0 else None),
-                  fail_after=run.get("fail_after"), uid=env.get("uid"))
+                  fail_after=run.get("fail_after"), uid=env.get("uid"),
+                  user_home=(w.paths[env["home"]] if env.get("home") is not None else None))
         r = lib.run_fselect(argv, cwd, w.home, timeout=run.get("timeout", timeout), **kw)
         if r["timed_out"]:
             # a busy machine must not look like a hang: one more try, alone in this worker, with three times the bound
